@@ -394,7 +394,13 @@ pub fn child_decode(kind: &str, path: &str) {
   let bytes = std::fs::read(path).unwrap_or_default();
   alloc::reset();
   let out = match kind {
-    "mom" => from_fits_multiordermap(BufReader::new(Cursor::new(bytes)), 0.0, 0.9, false, true, false, false).map(|m| m.len()).map_err(|e| e.to_string()),
+    "mom" => {
+      // the second reader of multi-order maps (store multiordermap_sum_in_moc*, `moc op momsum`): the sum of the values
+      // inside a MOC; its result is not judged, only that it returns
+      let full = moc::moc::range::RangeMOC::<u64, moc::qty::Hpx<u64>>::new_full_domain(3);
+      let _ = moc::deser::fits::multiordermap::sum_from_fits_multiordermap(BufReader::new(Cursor::new(bytes.clone())), &full);
+      from_fits_multiordermap(BufReader::new(Cursor::new(bytes)), 0.0, 0.9, false, true, false, false).map(|m| m.len()).map_err(|e| e.to_string())
+    }
     "skymap" => from_fits_skymap(BufReader::new(Cursor::new(bytes)), 0.0, 0.0, 0.9, false, true, false, false).map(|m| m.len()).map_err(|e| e.to_string()),
     _ => {
       let store = U64MocStore::get_global_store();
